@@ -169,6 +169,11 @@ impl SvgElement {
 //@       let cx = num0(self.attrs@, "cx"@)->Some_0; let cy = num0(self.attrs@, "cy"@)->Some_0; let rr = strp_spec(self.attrs@["r"@])->Some_0;
 //@       let (x1, y1, x2, y2) = bx(r->Ok_0->Some_0);
 //@       x1 == cx - rr * isqrt2v() && y1 == cy - rr * isqrt2v() && x2 == cx + rr * isqrt2v() && y2 == cy + rr * isqrt2v() })     @@C12.inside.rect_in_circle
+//@ - target_shape@ == "rect"@ && self.name@ == "ellipse"@ && r is Ok && r->Ok_0 is Some ==> ({
+//@       let cx = num0(self.attrs@, "cx"@)->Some_0; let cy = num0(self.attrs@, "cy"@)->Some_0;
+//@       let rx = strp_spec(self.attrs@["rx"@])->Some_0; let ry = strp_spec(self.attrs@["ry"@])->Some_0;
+//@       let (x1, y1, x2, y2) = bx(r->Ok_0->Some_0);
+//@       x1 == cx - rx * isqrt2v() && y1 == cy - ry * isqrt2v() && x2 == cx + rx * isqrt2v() && y2 == cy + ry * isqrt2v() })     @@C12.inside.rect_in_ellipse
 //@ - !(target_shape@ == "rect"@ && (self.name@ == "circle"@ || self.name@ == "ellipse"@)) && r is Ok ==> r->Ok_0 == elem_bbox(*self)     @@C12.inside.same_shape
 //@end
 
